@@ -1,7 +1,7 @@
 (* Driver for the C18 engine: parses the trace written by the two Go harnesses
    (stitched by tools/eng_prober.py), builds the Coq-defined [pcase] value of
-   every case and prints what the extracted functions case_acc / case_mon /
-   case_kB1..3 say about it.  With --coq it also prints the cases as Coq terms
+   every case and prints what the extracted functions case_acc / case_mon say
+   about it.  With --coq it also prints the cases as Coq terms
    for the vm_compute cross-check.  Glue only: no property logic here. *)
 exception Bad of string
 
@@ -37,6 +37,7 @@ let parse_lobs = function
   | ["ne"] -> OLres LNoEntry
   | ["es"] -> OLres (LParse ESyntax)
   | ["er"] -> OLres (LParse ERange)
+  | ["ed"] -> OLres LDurRange
   | ["eo"] -> OLother
   | ["panic"] -> OLpanic
   | t -> raise (Bad ("latency out: " ^ String.concat " " t))
@@ -175,7 +176,7 @@ let curis u = Printf.sprintf "(mkUris %s %s %s %s %s %s)" (cbytes u.u_project) (
     (cbytes u.u_instance_config) (cbytes u.u_database) (cbytes u.u_instance_name) (cbytes u.u_database_name)
 let clres = function
   | LOk d -> "(LOk " ^ cz d ^ ")" | LNotFound -> "LNotFound" | LNoEntry -> "LNoEntry"
-  | LParse ESyntax -> "(LParse ESyntax)" | LParse ERange -> "(LParse ERange)"
+  | LParse ESyntax -> "(LParse ESyntax)" | LParse ERange -> "(LParse ERange)" | LDurRange -> "LDurRange"
 let clobs = function OLpanic -> "OLpanic" | OLother -> "OLother" | OLres r -> "(OLres " ^ clres r ^ ")"
 let cgin g = Printf.sprintf "(mkGin %s %s %s %s %s %s)" (cbytes g.gi_project) (cbytes g.gi_instance)
     (cbytes g.gi_database) (cbytes g.gi_instance_config) (cz g.gi_qps_bits) (cbytes g.gi_probe_type)
@@ -223,23 +224,22 @@ let () =
       (match c.c_case with
        | None ->
            if coq_out = None then
-             Printf.printf "hist %d line %d nev %d acc ok m:c18 1 -1 f:k_B1 0 f:k_B2 0 f:k_B3 0 f:skipped 1\n" i c.c_line c.c_nev
+             Printf.printf "hist %d line %d nev %d acc ok m:c18 1 -1 f:skipped 1\n" i c.c_line c.c_nev
        | Some k ->
            if coq_out = None then begin
              let acc = case_acc k in
              let mon = case_mon k in
              let idx = int_of_z (case_mon_idx k) in
-             let k1 = case_kB1 k and k2 = case_kB2 k and k3 = case_kB3 k in
-             Printf.printf "hist %d line %d nev %d acc %s m:c18 %d %d f:k_B1 %d f:k_B2 %d f:k_B3 %d f:skipped 0\n" i c.c_line c.c_nev
+             Printf.printf "hist %d line %d nev %d acc %s m:c18 %d %d f:skipped 0\n" i c.c_line c.c_nev
                (match acc with None -> "ok" | Some (e, cl) -> Printf.sprintf "div %d %s" (min (int_of_nat e) c.c_nev) (class_name cl))
-               (b2i mon) (if mon then -1 else idx) (b2i k1) (b2i k2) (b2i k3)
+               (b2i mon) (if mon then -1 else idx)
            end else begin
              let used = (try Hashtbl.find quota c.c_kind with Not_found -> 0) in
              let small = (match k with KPayload (s, _) -> int_of_z s <= 200 | _ -> true) in
              if used < per_kind && small && !n_coq < coq_max then begin
                Hashtbl.replace quota c.c_kind (used + 1);
                incr n_coq;
-               coq_cases := (i, k, (case_acc k = None, case_mon k, case_kB1 k, case_kB2 k, case_kB3 k)) :: !coq_cases
+               coq_cases := (i, k, (case_acc k = None, case_mon k)) :: !coq_cases
              end
            end);
       (* with --coq only the sample is needed: stop once it is complete *)
@@ -249,10 +249,10 @@ let () =
   | None -> ()
   | Some oc ->
       output_string oc "From Coq Require Import ZArith NArith List Bool.\nFrom GV Require Import Prober.F64 Prober.Model Prober.Monitors.\nImport ListNotations.\nOpen Scope Z_scope.\n";
-      output_string oc "Definition case_ok (k : pcase) (acc mon k1 k2 k3 : bool) : bool := verdict_eqb (case_verdict k) (acc, mon, (k1, k2, k3)).\n";
+      output_string oc "Definition case_ok (k : pcase) (acc mon : bool) : bool := verdict_eqb (case_verdict k) (acc, mon).\n";
       let cs = List.rev !coq_cases in
-      List.iteri (fun j (_, k, (a, m, k1, k2, k3)) ->
-        Printf.fprintf oc "Definition case_%d : bool := case_ok (%s) %b %b %b %b %b.\n" j (ccase k) a m k1 k2 k3) cs;
+      List.iteri (fun j (_, k, (a, m)) ->
+        Printf.fprintf oc "Definition case_%d : bool := case_ok (%s) %b %b.\n" j (ccase k) a m) cs;
       Printf.fprintf oc "Definition all_cases : list bool := %s.\n"
         (clist (fun j -> "case_" ^ string_of_int j) (List.init (List.length cs) (fun j -> j)));
       Printf.fprintf oc "Definition case_ids : list nat := %s.\n"
